@@ -153,12 +153,76 @@ impl G {
     }
 }
 
+impl G {
+    /// own max flow (unit capacities, Edmonds-Karp on an explicit residual capacity map); with
+    /// `split` every vertex except s and t has capacity 1 (vertex version)
+    fn max_flow(&self, s: usize, t: usize, split: bool) -> usize {
+        let n = self.verts.len();
+        // node ids: in(v) = v, out(v) = v + n when split
+        let nn = if split { 2 * n } else { n };
+        let mut cap: BTreeMap<(usize, usize), i64> = BTreeMap::new();
+        let mut adj: Vec<BTreeSet<usize>> = vec![BTreeSet::new(); nn];
+        let add = |a: usize, b: usize, c: i64, cap: &mut BTreeMap<(usize, usize), i64>, adj: &mut Vec<BTreeSet<usize>>| {
+            *cap.entry((a, b)).or_insert(0) += c;
+            cap.entry((b, a)).or_insert(0);
+            adj[a].insert(b);
+            adj[b].insert(a);
+        };
+        if split {
+            for v in 0..n {
+                let c = if v == s || v == t { 1_000_000 } else { 1 };
+                add(v, v + n, c, &mut cap, &mut adj);
+            }
+        }
+        for v in 0..n {
+            for &w in &self.adj[v] {
+                if v != w {
+                    if split {
+                        add(v + n, w, 1, &mut cap, &mut adj);
+                    } else {
+                        add(v, w, 1, &mut cap, &mut adj);
+                    }
+                }
+            }
+        }
+        let (src, dst) = (s, if split { t } else { t });
+        let src = if split { src + n } else { src };
+        let mut flow = 0;
+        loop {
+            let mut back = vec![usize::MAX; nn];
+            let mut q = VecDeque::from([src]);
+            back[src] = src;
+            while let Some(v) = q.pop_front() {
+                for &w in &adj[v] {
+                    if back[w] == usize::MAX && cap[&(v, w)] > 0 {
+                        back[w] = v;
+                        q.push_back(w);
+                    }
+                }
+            }
+            if back[dst] == usize::MAX {
+                return flow;
+            }
+            let mut w = dst;
+            while w != src {
+                let v = back[w];
+                *cap.get_mut(&(v, w)).unwrap() -= 1;
+                *cap.get_mut(&(w, v)).unwrap() += 1;
+                w = v;
+            }
+            flow += 1;
+        }
+    }
+}
+
 fn check_cut(c: &CutCase, obs: &mut Obs) -> Result<(), String> {
     ensure!(c.s != c.t, "harness: source == sink");
     let directed: BTreeSet<(usize, usize)> = c.edges.iter().cloned().collect();
     let eff: BTreeSet<(usize, usize)> = if c.kind % 2 == 1 { directed.iter().flat_map(|&(a, b)| [(a, b), (b, a)]).collect() } else { directed.clone() };
     let g = graph(&eff, c.s, c.t);
-    ensure!(g.verts.len() <= 12, "harness: graph too large for the brute-force oracle");
+    let brute = g.verts.len() <= 12;
+    ensure!(g.verts.len() <= 400, "harness: graph too large");
+    obs.classify(!brute, "large graph (own max-flow oracle instead of subset brute force)");
     let (s, t) = (g.pos(c.s), g.pos(c.t));
     let none_e = BTreeSet::new();
     let none_v = BTreeSet::new();
@@ -174,15 +238,21 @@ fn check_cut(c: &CutCase, obs: &mut Obs) -> Result<(), String> {
         }
         let after = g.reach(s, &cut, &none_v);
         ensure!(!after[t], "sink still reachable from source after removing the cut {:?}", res.cut_edges);
-        let best = g.min_edge_cut(s, t);
+        let best = if brute { g.min_edge_cut(s, t) } else { g.max_flow(s, t, false) };
+        if brute {
+            // the two oracles must agree where both apply
+            ensure!(g.max_flow(s, t, false) == best, "harness: own max flow {} differs from the subset minimum {}", g.max_flow(s, t, false), best);
+        }
         ensure!(cut.len() == best, "cut {:?} has {} edges but a cut with {} edges exists", res.cut_edges, cut.len(), best);
         let mut inside: BTreeSet<usize> = res.inside_vertices.iter().cloned().collect();
         inside.insert(c.s);
         let expect: BTreeSet<usize> = (0..g.verts.len()).filter(|&v| after[v]).map(|v| g.verts[v]).collect();
         ensure!(inside == expect, "inside vertices + source = {:?}, but reachable from the source after removing the cut = {:?}", inside, expect);
-        obs.nontrivial(best >= 2 || (best >= 1 && g.greedy_paths(s, t) < best) || (best >= 1 && expect.len() >= 3));
+        let greedy = g.greedy_paths(s, t);
+        obs.nontrivial(best >= 2 || (best >= 1 && greedy < best) || (best >= 1 && expect.len() >= 3));
         obs.classify(best >= 2, "min cut >= 2");
-        obs.classify(g.greedy_paths(s, t) < best, "needs flow cancellation");
+        obs.classify(best >= 3, "min cut >= 3");
+        obs.classify(greedy < best, "needs flow cancellation");
     } else {
         if eff.contains(&(c.s, c.t)) {
             obs.discard("precondition: source and sink joined by an edge");
@@ -198,7 +268,10 @@ fn check_cut(c: &CutCase, obs: &mut Obs) -> Result<(), String> {
         }
         let after = g.reach(s, &none_e, &cut);
         ensure!(!after[t], "sink still reachable from source after removing the vertices {:?}", res.cut_vertices);
-        let best = g.min_vertex_cut(s, t);
+        let best = if brute { g.min_vertex_cut(s, t) } else { g.max_flow(s, t, true) };
+        if brute {
+            ensure!(g.max_flow(s, t, true) == best, "harness: own vertex max flow {} differs from the subset minimum {}", g.max_flow(s, t, true), best);
+        }
         ensure!(cut.len() == best, "vertex cut {:?} has {} vertices but a cut with {} vertices exists", res.cut_vertices, cut.len(), best);
         let mut inside: BTreeSet<usize> = res.inside_vertices.iter().cloned().collect();
         inside.insert(c.s);
@@ -275,6 +348,58 @@ fn layered_case() -> impl Strategy<Value = CutCase> {
     })
 }
 
+/// larger graphs: random sparse graphs, grids and prisms (skeleton-like: planar, small degree)
+fn large_case() -> impl Strategy<Value = CutCase> {
+    prop_oneof![
+        // random sparse
+        (13usize..=40, 0u8..4).prop_flat_map(|(n, kind)| {
+            (prop::collection::vec((0..n, 0..n), n..=3 * n), 0..n, 0..n - 1).prop_map(move |(es, s, t0)| {
+                let t = if t0 >= s { t0 + 1 } else { t0 };
+                let es = es.into_iter().filter(|&(a, b)| a != b && (kind < 2 || !((a, b) == (s, t) || (kind == 3 && (a, b) == (t, s))))).collect();
+                CutCase { kind, edges: es, s, t }
+            })
+        }),
+        // w x h grid with some edges removed, source and sink anywhere
+        (3usize..=6, 3usize..=6, 0u8..4, prop::collection::vec(any::<bool>(), 80), any::<u32>(), any::<u32>()).prop_map(|(w, h, kind, keep, a, b)| {
+            let id = |x: usize, y: usize| y * w + x;
+            let mut edges = vec![];
+            let mut k = 0;
+            for y in 0..h {
+                for x in 0..w {
+                    if x + 1 < w {
+                        if keep[k % 80] || k % 5 != 0 { edges.push((id(x, y), id(x + 1, y))); edges.push((id(x + 1, y), id(x, y))); }
+                        k += 1;
+                    }
+                    if y + 1 < h {
+                        if keep[k % 80] || k % 7 != 0 { edges.push((id(x, y), id(x, y + 1))); edges.push((id(x, y + 1), id(x, y))); }
+                        k += 1;
+                    }
+                }
+            }
+            let n = w * h;
+            let s = pick_index(a, n);
+            let mut t = pick_index(b, n - 1);
+            if t >= s { t += 1; }
+            let edges = edges.into_iter().filter(|&e| kind < 2 || !(e == (s, t) || e == (t, s))).collect();
+            CutCase { kind, edges, s, t }
+        }),
+        // prism over a cycle of length n (the skeleton of a prism tile), undirected versions
+        (3usize..=12, 2u8..4, any::<u32>(), any::<u32>()).prop_map(|(n, kind, a, b)| {
+            let mut edges = vec![];
+            for i in 0..n {
+                edges.push((i, (i + 1) % n));
+                edges.push((n + i, n + (i + 1) % n));
+                edges.push((i, n + i));
+            }
+            let s = pick_index(a, 2 * n);
+            let mut t = pick_index(b, 2 * n - 1);
+            if t >= s { t += 1; }
+            let edges = edges.into_iter().filter(|&(x, y)| !((x, y) == (s, t) || (x, y) == (t, s))).collect();
+            CutCase { kind, edges, s, t }
+        }),
+    ]
+}
+
 pub fn run(ctx: &mut Ctx) {
     let t = ctx.tier;
     ctx.rule = "all simple digraphs on n labelled vertices x all ordered (source, sink) pairs x the four entry points (exhaustive), plus proptest-generated graphs with up to 9 vertices / 16 edges (duplicates, loops, sparse labels) and layered networks; oracle = brute force over all vertex subsets; distinct = distinct hashes of (entry point, edge list, source, sink)".into();
@@ -310,6 +435,9 @@ pub fn run(ctx: &mut Ctx) {
     ctx.layer("random");
     ctx.run_prop(&SUB_CUT, random_case, t.pick(400_000, 5_000_000));
     ctx.run_prop(&SUB_CUT, layered_case, t.pick(100_000, 1_000_000));
+    ctx.layer("random-large");
+    ctx.run_prop(&SUB_CUT, large_case, t.pick(30_000, 600_000));
+    ctx.layer("random");
     if t == Tier::Quick {
         // the 5-vertex layer is exhaustive in the thorough tier; the quick tier samples it
         ctx.layer("random-5-vertices");
